@@ -13,6 +13,8 @@ CHAIN_OK = ['core::option::Option::ok_or', 'core::option::Option::ok_or_else', '
             'core::option::Option::and_then', 'core::ops::try_trait::Try::branch',
             'core::ops::try_trait::FromResidual::from_residual', 'core::result::Result::ok',
             'core::option::Option::filter']
+INSPECT_OK = ['core::result::Result::is_ok', 'core::result::Result::is_err', 'core::option::Option::is_some', 'core::option::Option::is_none',
+              'core::result::Result::as_ref', 'core::option::Option::as_ref']
 TERMINAL_OK = ['core::option::Option::expect', 'core::option::Option::unwrap', 'core::result::Result::expect',
                'core::result::Result::unwrap']
 
@@ -25,6 +27,8 @@ def failure_reaches_error(fn, local, allow_panic, depth=0):
     sinks = flows_to(fn, local, whole_only=True)
     if not sinks:
         return False, 'result is not used'
+    if all(s[0] == 'drop' or (s[0] == 'callarg' and call_matches(s[2], INSPECT_OK)) for s in sinks):
+        return False, 'result is only inspected, never propagated'
     for s in sinks:
         kind = s[0]
         if kind == 'return':
@@ -42,6 +46,8 @@ def failure_reaches_error(fn, local, allow_panic, depth=0):
                 if not ok:
                     return False, why
                 continue
+            if call_matches(t, INSPECT_OK) and k == 0:
+                continue  # looked at by reference; the value itself still has to be propagated by another use
             if call_matches(t, TERMINAL_OK) and k == 0:
                 if allow_panic:
                     continue
